@@ -105,11 +105,67 @@ NormOk(nz) ==
            t == CHOOSE h \in RebinHist : h[1] = b IN
        d >= 1 /\ 2 * Abs(nz[j][6] * d - 720 * t[2]) <= d
 
+
+(* --------------- inverse_SSRB, extend_segment (self-contained lines) ------------ *)
+Cfg3Of(r) == [CfgOf(r) EXCEPT !.span = r.span3, !.maxDelta = r.maxDelta3, !.minSeg = r.minSeg3, !.maxSeg = r.maxSeg3]
+\* non-zero bins of the 4D result, value * 16: twice the value = sum of the half weights times the direct sinograms
+InvOk(r) ==
+  LET c4 == CfgOf(r)  c3 == Cfg3Of(r)
+      D == { i \in 1..Len(r.nz3) : r.nz3[i][1] = 0 }                       \* "oblique segments ... are ignored"
+      Cand == { Bin(s, ax, r.nz3[i][3], r.nz3[i][4], r.nz3[i][5]) :
+                  s \in Segs(c4), ax \in 0..(2 * c4.R), i \in D }
+      B == { b \in Cand : b.ax < NumAx(c4, b.seg) /\
+                          \E i \in D : r.nz3[i][3] = b.view /\ r.nz3[i][4] = b.tang /\ r.nz3[i][5] = b.tof
+                                        /\ InvW2(c4, c3, b.seg, b.ax, r.nz3[i][2]) > 0 }
+      Val(b) == FoldSet(LAMBDA i, acc : acc + (IF r.nz3[i][3] = b.view /\ r.nz3[i][4] = b.tang /\ r.nz3[i][5] = b.tof
+                                               THEN 8 * InvW2(c4, c3, b.seg, b.ax, r.nz3[i][2]) * r.nz3[i][6] ELSE 0), 0, D)
+  IN /\ LegalConfig(c4) /\ LegalButTang(c3) /\ InvCompatible(c4, c3) /\ InvUnity(c4, c3)
+     /\ r.numAx3 = NumAx(c3, 0)
+     /\ ~r.err /\ r.ok
+     /\ Cardinality(NzSet(r.nz)) = Len(r.nz)
+     /\ NzSet(r.nz) = { << b, Val(b) >> : b \in B }
+\* the extended array: index range grown by the extensions, every element the value of its source (ExtSource)
+ExtD(r) == [minAx |-> r.minAx, maxAx |-> r.maxAx, nv |-> r.nv, minT |-> r.minT, maxT |-> r.maxT]
+ExtShapeOk(r) ==
+  /\ ~r.err /\ r.regular
+  /\ r.nv >= 5 /\ r.ext[1] <= r.nv          \* 180 degree data (fewer views are taken for 360 degree data by the tolerance of the test)
+  /\ r.lo = << r.minAx - r.ext[2], -r.ext[1], r.minT - r.ext[3] >>
+  /\ r.hi = << r.maxAx + r.ext[2], r.nv - 1 + r.ext[1], r.maxT + r.ext[3] >>
+  /\ Len(r.out) = (r.hi[1] - r.lo[1] + 1) * (r.hi[2] - r.lo[2] + 1) * (r.hi[3] - r.lo[3] + 1)
+ExtElemOk(r, a, v, t) ==
+  LET nt == r.maxT - r.minT + 1
+      x == ExtSource(ExtD(r), a, v, t)
+      ont == r.hi[3] - r.lo[3] + 1
+      onv == r.hi[2] - r.lo[2] + 1 IN
+  r.out[((a - r.lo[1]) * onv + (v - r.lo[2])) * ont + (t - r.lo[3]) + 1]
+     = 16 * r.in[((x[1] - r.minAx) * r.nv + x[2]) * nt + (x[3] - r.minT) + 1]
+ExtOk(r) == ExtShapeOk(r) /\ \A a \in r.lo[1]..r.hi[1] : \A v \in r.lo[2]..r.hi[2] : \A t \in r.lo[3]..r.hi[3] : ExtElemOk(r, a, v, t)
+\* everything but the elements of wrapped views whose (nearest existing) tangential position has no mirror image
+ExtOkButMirrorless(r) ==
+  ExtShapeOk(r) /\ \A a \in r.lo[1]..r.hi[1] : \A v \in r.lo[2]..r.hi[2] : \A t \in r.lo[3]..r.hi[3] :
+     (ExtWraps(ExtD(r), v) % 2 = 0 \/ ExtHasMirror(ExtD(r), t)) => ExtElemOk(r, a, v, t)
+
+\* ScatterSimulation::downsample_scanner: the template it makes is DownsampleGeom (integer maps only; axial length kept)
+DownOk(r) ==
+  LET cc == CfgOf(r)  d == DownsampleGeom(cc, r.newR, r.newN) IN
+  /\ LegalConfig(cc) /\ ~r.err /\ r.ok
+  /\ r.dN = d.N /\ r.dR = d.R /\ r.dViews = NumViews(d) /\ r.dMinTang = d.minTang /\ r.dMaxTang = d.maxTang
+  /\ r.dTofMash = 0 /\ r.dMaxBins = NumTang(d)
+  /\ Len(r.dSegs) = d.maxSeg - d.minSeg + 1
+  /\ \A i \in 1..Len(r.dSegs) :
+       LET sg == r.dSegs[i][1] IN
+       /\ sg = d.minSeg + i - 1 /\ r.dSegs[i][2] = sg /\ r.dSegs[i][3] = sg
+       /\ r.dSegs[i][4] = 0 /\ r.dSegs[i][5] = NumAx(d, sg) - 1
+  /\ Abs(r.lenRatio6 - 1000000) <= 10
+
 \* lines after a Config line that was refused or not explained have no output geometry to refer to
 Ctx == c # NoCfg /\ o # NoCfg
 Explains(r) ==
   CASE r.e = "Config" -> ConfigOk(r)
     [] r.e = "End" -> ~r.err
+    [] r.e = "Inv" -> InvOk(r)
+    [] r.e = "Ext" -> ExtOk(r)
+    [] r.e = "Down" -> DownOk(r)
     [] ~Ctx -> FALSE
     [] r.e = "Ev" -> EvOk(r)
     [] r.e = "Hist" /\ r.which = "fine" ->
@@ -143,6 +199,9 @@ Explains(r) ==
 Classify(r) ==
   IF r.e = "Config" /\ ~r.err /\ InputOk(r) /\ TooFewSegments(CfgOf(r), ParOf(r)) /\ r.trim < r.maxTang - r.minTang + 1 /\ r.tofComb >= 1
   THEN "C15-maxsegsmall"
+  \* C15-extflip: extend_segment, 180 degree data with an asymmetric tangential range, view AND tangential extension:
+  \* the wrapped views are filled before the tangential extension, from positions that are still empty
+  ELSE IF r.e = "Ext" /\ r.minT # -r.maxT /\ r.ext[1] > 0 /\ r.ext[3] > 0 /\ ExtOkButMirrorless(r) THEN "C15-extflip"
   ELSE IF r.e = "Rebin" /\ ~r.norm /\ c # NoCfg /\ o # NoCfg /\ p.tofComb % 2 = 0 /\ TofNests(c, o) /\ PermOk(r.nz) THEN "C15-eventof"
   ELSE "new"
 
